@@ -46,7 +46,9 @@ def tree(kind):
 
 # (the same directory or file may be spelled in several ways: "docs/../excl" is "excl")
 SOURCE_DIRS = [None, ["sub"], ["sub/**"], ["**"], [".", "sub"], ["nonexistent"], ["<ABS>/sub/deep"], ["s*", "excl/inner"],
-               ["sub", "docs/../excl", "./excl/inner/"]]
+               ["sub", "docs/../excl", "./excl/inner/"],
+               # the root itself, configured: only the files directly in it (not the default discovery)
+               ["."], ["<ABS>/"], ["sub/.."], [".", "excl"]]
 EXCL_PATHS = [[], ["excl"], ["excl/**"], ["sub/a.f90"], ["**/*.F90"], ["excl", "sub/deep"], ["<ABS>/excl/inner"],
               ["docs/../excl/h.f90", "sub/../sub/a.f90", "excl/inner/../inner"]]
 INCL_SUFFIXES = [[], [".inc"], ["inc"], [".FYP"], [".F90.in", "_gen"]]
